@@ -101,7 +101,7 @@ impl Lexer {
     /// tab, or comma. Newlines are not considered whitespace as it is a
     /// token in the lexer.
     fn is_ws(ch: char) -> bool {
-        ch == ' ' || ch == '\t' || ch == ','
+        ch == ' ' || ch == '\t' || ch == ',' || ch == '\r'
     }
 
     /// Check if the given character is a character usable in a symbol.
@@ -124,6 +124,19 @@ impl Lexer {
     fn skip_ws(&mut self) {
         while let Some(current) = self.current() {
             if !Self::is_ws(current) {
+                break;
+            }
+            self.consume_char();
+        }
+    }
+
+    /// Skip the rest of the current line, up to but excluding the newline.
+    ///
+    /// Used after a malformed string or character literal, whose remainder
+    /// cannot be lexed meaningfully.
+    fn skip_line(&mut self) {
+        while let Some(current) = self.current() {
+            if current == '\n' {
                 break;
             }
             self.consume_char();
@@ -386,6 +399,7 @@ impl Iterator for Lexer {
                 let string_str = match self.acc_string() {
                     Ok(s) => s,
                     Err(e) => {
+                        self.skip_line();
                         return Some(Err(LexError::InvalidString(
                             Box::new(Token::new(
                                 TokenType::String(String::new()),
@@ -419,12 +433,14 @@ impl Iterator for Lexer {
                         '\\' => match self.escape_code() {
                             Some(ec) => ec,
                             None => {
+                                let end = self.get_pos();
+                                self.skip_line();
                                 return Some(self.invalid_string(
                                     c.to_string(),
                                     StringLexErrorType::InvalidEscapeSequence,
                                     start,
-                                    self.get_pos(),
-                                ))
+                                    end,
+                                ));
                             }
                         },
                         // Can't have a literal newline in a character
@@ -483,7 +499,14 @@ impl Iterator for Lexer {
                 // If the first character is not a symbol char -> error
                 if let Some(current) = self.current() {
                     if !Self::is_symbol_item(current) {
-                        return None;
+                        let pos = Range::new(start, start);
+                        self.consume_char();
+                        return Some(Err(LexError::UnexpectedToken(Box::new(Token::new(
+                            TokenType::Symbol(current.to_string()),
+                            current.to_string(),
+                            pos,
+                            self.source_id,
+                        )))));
                     }
                 }
 
